@@ -3,6 +3,7 @@
 #![feature(rustc_private)]
 extern crate rustc_lexer;
 mod c01;
+mod c01lit;
 mod c02;
 mod c07;
 mod c09;
@@ -56,6 +57,7 @@ fn main() {
     }
     let code = match prop.as_str() {
         "c01" => c01::run(&tier, seed, &out),
+        "c01lit" => c01lit::run(&tier, seed, &out),
         "c02" => c02::run(&tier, seed, &out),
         "c07" => c07::run(&tier, seed, &out),
         "c09" => c09::run(&tier, seed, &out),
